@@ -147,8 +147,10 @@ def run_timestamps(tier, v):
     files = {"a.rs": scenarios.A_MISSING, "b.rs": scenarios.B_COMPLETE, "c.rs": scenarios.C_MIXED, "d/e.rs": 'fn e() { info!("deep"); }\n'}
     T = {"2001": 978307200, "now": None, "2037": 2114380800}
     n = 0
-    for src_t, lock_t, lock, structured in itertools.product(T, T, (None, 8, 100), (False, True)):
+    for src_t, lock_t, lock, structured, mode_bits in itertools.product(T, T, (None, 8, 100), (False, True), (0o644, 0o444, 0o755)):
         if lock is None and lock_t != "now":
+            continue
+        if mode_bits != 0o644 and (src_t, lock_t) not in (("now", "now"), ("2001", "now")):
             continue
         res = {}
         for mode in ("check", "edit"):
@@ -159,6 +161,7 @@ def run_timestamps(tier, v):
                 tree["Breadlog.lock"] = cli.lock_yaml(lock)
             cli.write_tree(proj, tree)
             for k in files:
+                os.chmod(os.path.join(proj, "src", k), mode_bits)
                 if T[src_t]:
                     os.utime(os.path.join(proj, "src", k), (T[src_t], T[src_t]))
             if lock is not None and T[lock_t]:
@@ -169,7 +172,7 @@ def run_timestamps(tier, v):
             shutil.rmtree(proj, ignore_errors=True)
         n += 1
         v.count()
-        v.distinct(("timestamps", src_t, lock_t, lock, structured))
+        v.distinct(("timestamps", src_t, lock_t, lock, structured, mode_bits))
         rc, _ = res["check"]
         re_, after = res["edit"]
         rep = cli.Report(rc.stdout)
@@ -185,7 +188,7 @@ def run_timestamps(tier, v):
         for f, _, _ in rep.missing:
             k = f.split("/src/", 1)[-1]
             reported[k] = reported.get(k, 0) + 1
-        info = {"sources_mtime": src_t, "lock_mtime": lock_t, "lock": lock, "structured": structured, "check_exit": rc.exit, "edit_exit": re_.exit,
+        info = {"sources_mtime": src_t, "lock_mtime": lock_t, "sources_mode": oct(mode_bits), "lock": lock, "structured": structured, "check_exit": rc.exit, "edit_exit": re_.exit,
                 "reported": reported, "inserted": inserted}
         if rc.panicked or re_.panicked or rc.signal is not None or re_.signal is not None:
             v.violation("cli-crash:timestamps", info)
@@ -195,7 +198,7 @@ def run_timestamps(tier, v):
             v.violation("check-report-differs-from-edit-insertions:timestamps", info)
         elif (rc.exit == 0) != (sum(inserted.values()) == 0):
             v.violation("check-exit-does-not-predict-edit:timestamps", info)
-    v.subspace("timestamps: sources {2001, now, 2037} x lock file {2001, now, 2037} x lock {absent, 8, 100} x style: --check report == insertions of an "
+    v.subspace("file metadata: source mtime {2001, now, 2037} x lock file mtime {2001, now, 2037} x lock {absent, 8, 100} x style, and source mode {0644, 0444, 0755}: --check report == insertions of an "
                "edit run on a copy with the same timestamps", n, exhaustive=True)
 
 
